@@ -6,7 +6,8 @@
 //	cfg x path x method x Content-Type x header set x body x ResponseWriter x delivery
 //
 // (delivery: how the transport announces the body's length and hands its bytes
-// to the handler, delivery.go) is served by the real handler tree (httpgrpc.NewServer, and an http.ServeMux
+// to the handler, delivery.go; body: hand-written ones and a generated family
+// over the number a frame's size preface announces, preface.go) is served by the real handler tree (httpgrpc.NewServer, and an http.ServeMux
 // filled by httpgrpc.HandleServices; with and without a base path and
 // interceptors) on an httptest recorder; the reply and the application-code
 // counters are compared with a reference function of the request (oracle.go).
@@ -60,6 +61,7 @@ type jobResult struct {
 	wrapperUsed    map[string]int // ... of which library code made calls on the wrapper
 	writerSamples  map[string]sample
 	byDelivery     map[string]int // dispatched requests (handler ran) per body delivery and method kind (delivery.go)
+	byPreface      map[string]int // dispatched requests with a generated body per streaming method kind and announced size (preface.go)
 	classes        map[string]int
 	notes          map[string]int
 	nontrivial     int // distinct non-trivial tuples of this job (jobs enumerate disjoint sets of tuples)
@@ -68,7 +70,8 @@ type jobResult struct {
 }
 
 type worker struct {
-	envs []*env
+	envs     []*env
+	bodyMemo map[bodyMemoKey]tuple // preface.go: where the walk from a generated body ended
 }
 
 func newWorker() *worker {
@@ -179,6 +182,8 @@ func (w *worker) minimize(t tuple, clause string) (tuple, *result, *Case) {
 			}
 		}
 	}
+	// a generated body that is needed: walk to simpler bodies of its family
+	t = w.minimizeBody(t, clause)
 	r, c := w.check(t)
 	return t, r, c
 }
@@ -225,7 +230,7 @@ var progress int64
 
 func (w *worker) runJob(gen func(func(tuple))) *jobResult {
 	jr := &jobResult{classes: map[string]int{}, notes: map[string]int{}, samples: map[string]sample{},
-		byWriter: map[string]int{}, wrapperUsed: map[string]int{}, writerSamples: map[string]sample{}, byDelivery: map[string]int{}}
+		byWriter: map[string]int{}, wrapperUsed: map[string]int{}, writerSamples: map[string]sample{}, byDelivery: map[string]int{}, byPreface: map[string]int{}}
 	nontrivial := map[tuple]struct{}{}
 	seenRaw := map[string]bool{}
 	gen(func(t tuple) {
@@ -242,6 +247,9 @@ func (w *worker) runJob(gen func(func(tuple))) *jobResult {
 		}
 		if k := kindOf(t); k != "" && r.Obs.Cnt.handler > 0 {
 			jr.byDelivery[delivs[t[7]].Name+" "+k]++
+		}
+		if p := prefaceOf(t[5]); p != nil && r.Obs.Cnt.handler > 0 && kindOf(t) != "" && kindOf(t) != "U" {
+			jr.byPreface[fmt.Sprintf("%s %d", kindOf(t), p.V)]++
 		}
 		if t[6] != 0 {
 			wn := writers[t[6]].Name
@@ -319,15 +327,15 @@ func describe(c *Case) string {
 //	   writer x generated header set, delivery x path, delivery x HTTP method,
 //	   delivery x generated header set, delivery x writer.
 func coveredAB(t tuple) bool {
-	return t[6] == 0 && t[7] == 0 && (t[4] < nCoreHdrs || (t[1] < len(kinds) && t[2] == 0))
+	return t[5] < nCoreBodies && t[6] == 0 && t[7] == 0 && (t[4] < nCoreHdrs || (t[1] < len(kinds) && t[2] == 0))
 }
 
 func coveredD(t tuple) bool {
-	return t[6] != 0 && t[7] == 0 && t[1] < len(kinds) && t[2] == 0 && t[4] < nCoreHdrs
+	return t[5] < nCoreBodies && t[6] != 0 && t[7] == 0 && t[1] < len(kinds) && t[2] == 0 && t[4] < nCoreHdrs
 }
 
 func coveredE(t tuple) bool {
-	return t[7] != 0 && t[6] == 0 && t[1] < len(kinds) && t[2] == 0 && t[4] < nCoreHdrs
+	return t[5] < nCoreBodies && t[7] != 0 && t[6] == 0 && t[1] < len(kinds) && t[2] == 0 && t[4] < nCoreHdrs
 }
 
 func chunkJobs(ts []tuple) []func(func(tuple)) {
@@ -347,7 +355,7 @@ func chunkJobs(ts []tuple) []func(func(tuple)) {
 func blockC() []tuple {
 	var out []tuple
 	for ci := range cfgs {
-		out = append(out, sweepTuples(ci, false, func(t tuple) bool { return !coveredAB(t) && !coveredD(t) && !coveredE(t) })...)
+		out = append(out, sweepTuples(ci, false, func(t tuple) bool { return !coveredAB(t) && !coveredD(t) && !coveredE(t) && !coveredF(t) })...)
 	}
 	return out
 }
@@ -355,6 +363,7 @@ func blockC() []tuple {
 func fullJobs() ([]func(func(tuple)), int) {
 	var jobs []func(func(tuple))
 	n := axisSizes()
+	n[5] = nCoreBodies // blocks A-E: the hand-written bodies; the generated ones are block F
 	total := 0
 	for ci := 0; ci < n[0]; ci++ {
 		for pi := 0; pi < n[1]; pi++ {
@@ -422,7 +431,8 @@ func fullJobs() ([]func(func(tuple)), int) {
 		}
 	}
 	c := blockC()
-	return append(jobs, chunkJobs(c)...), total + len(c)
+	f, nf := prefaceJobs(true) // block F
+	return append(append(jobs, chunkJobs(c)...), f...), total + len(c) + nf
 }
 
 // sweepTuples: around the plain valid request of each method kind under
@@ -430,6 +440,7 @@ func fullJobs() ([]func(func(tuple)), int) {
 // axis takes part when withCfg is set); keep filters the result.
 func sweepTuples(ci int, withCfg bool, keep func(tuple) bool) []tuple {
 	n := axisSizes()
+	n[5] = nCoreBodies // the generated bodies have an enumeration of their own (prefaceGen)
 	seen := map[tuple]bool{}
 	var out []tuple
 	add := func(t tuple) {
@@ -487,7 +498,8 @@ func quickTuples() []tuple {
 
 func quickJobs() ([]func(func(tuple)), int) {
 	ts := quickTuples()
-	return chunkJobs(ts), len(ts)
+	f, nf := prefaceJobs(false)
+	return append(chunkJobs(ts), f...), len(ts) + nf
 }
 
 func runJobs(jobs []func(func(tuple))) []*jobResult {
@@ -592,6 +604,7 @@ func selfCheck() error {
 	errs = append(errs, selfCheckGenerated()...)
 	errs = append(errs, selfCheckWriters()...)
 	errs = append(errs, selfCheckDeliveries()...)
+	errs = append(errs, selfCheckPrefaces()...)
 	for _, e := range errs {
 		if e != nil {
 			return e
@@ -813,7 +826,11 @@ func main() {
 	byWriter, wrapperUsed := map[string]int{}, map[string]int{}
 	writerSamples := map[string]sample{}
 	byDelivery := map[string]int{}
+	byPreface := map[string]int{}
 	for _, jr := range results {
+		for k, v := range jr.byPreface {
+			byPreface[k] += v
+		}
 		for k, v := range jr.byDelivery {
 			byDelivery[k] += v
 		}
@@ -874,6 +891,19 @@ func main() {
 		}
 	}
 
+	// every announced size of the generated bodies reached the handler of every streaming kind
+	prefaceByKind := map[string]int{}
+	for _, k := range kinds[1:] {
+		for _, v := range prefaceVs {
+			c := byPreface[fmt.Sprintf("%s %d", k, v)]
+			prefaceByKind[k] += c
+			if nViol == 0 && c == 0 {
+				fmt.Fprintf(os.Stderr, "INCONCLUSIVE: no request whose body announces a frame of size %d was dispatched to the %s handler\n", v, k)
+				os.Exit(2)
+			}
+		}
+	}
+
 	// JSON == protobuf
 	eq := runEquiv(rep)
 
@@ -905,17 +935,18 @@ func main() {
 	}
 	samples = append(samples, sc.samples...)
 
-	rule := "request grammar = cfg{srv, mux(HandleServices), srv+/api base+interceptors, mux+/api base+interceptors} x path{4 registered methods (one per kind), 14-15 unregistered/non-canonical} x method{POST,GET,HEAD,PUT,DELETE,OPTIONS,PATCH,post,CONNECT} x Content-Type{" + fmt.Sprint(len(cts)) + " strings} x header set{" + fmt.Sprint(len(hdrs)) + "} x body{" + fmt.Sprint(len(bodies)) + "} x ResponseWriter{" + fmt.Sprint(len(writers)) + "} x body delivery{" + fmt.Sprint(len(delivs)) + "}; " +
+	rule := "request grammar = cfg{srv, mux(HandleServices), srv+/api base+interceptors, mux+/api base+interceptors} x path{4 registered methods (one per kind), 14-15 unregistered/non-canonical} x method{POST,GET,HEAD,PUT,DELETE,OPTIONS,PATCH,post,CONNECT} x Content-Type{" + fmt.Sprint(len(cts)) + " strings} x header set{" + fmt.Sprint(len(hdrs)) + "} x body{" + fmt.Sprint(nCoreBodies) + " hand-written + " + fmt.Sprint(len(prefaces)) + " generated} x ResponseWriter{" + fmt.Sprint(len(writers)) + "} x body delivery{" + fmt.Sprint(len(delivs)) + "}; " +
 		"each request is served by the real handler tree on a recorder (behind the ResponseWriter wrapper of the case) and judged by a reference function of the literal request. " +
 		fmt.Sprintf("BODY DELIVERY (%d): how the transport announces the length of the request body and hands its bytes to the handler, i.e. r.ContentLength / r.TransferEncoding / r.Proto and the behaviour of r.Body.Read: announce{length: ContentLength == len(body); chunked: ContentLength == -1 with Transfer-Encoding chunked (HTTP/1.1 client whose body is not a byte slice, a streaming proxy); h2: ContentLength == -1, HTTP/2.0, no content-length} x reader{whole: all bytes in one Read, then (0, EOF); 1byte: one byte per Read; data+eof: the last bytes together with io.EOF} = 9, plus 3 deliveries whose ContentLength, TransferEncoding and Body are what net/http's own http.ReadRequest makes of the literal HTTP/1.1 message carrying the body with a Content-Length header, as one chunk, and as one-byte chunks (%s). The reference function never looks at the delivery: the verdict demanded is the one demanded for the same method, path, headers and body bytes. ", len(delivs), delivList()) +
 		fmt.Sprintf("RESPONSE WRITERS (%d): what the http.ResponseWriter handed to the library can do. The plain httptest recorder; the recorder handed on untouched by a decorating Mux function given to HandleServices; and %d wrappers around the recorder, each a Go type of its own with exactly the named optional methods besides Header/Write/WriteHeader - %s - each in two placements: as an http middleware in front of the whole handler tree (*httpgrpc.Server resp. the ServeMux), and inside a Mux function given to HandleServices that decorates every handler it registers, as the package documentation suggests (only for the HandleServices configurations). The reply is read from the recorder behind the wrapper. Oracle: the same reference function as for every request (in particular: data frames followed by exactly one trailer frame), and, when that finds nothing, status, headers, body (streaming replies: frame by frame, trailers compared as messages) and application-code counters equal to those of the same request served on the plain recorder. ", len(writers), len(capKinds), capKindList()) +
+		fmt.Sprintf("ANNOUNCED FRAME SIZES (%d generated bodies): a streaming request body is a sequence of frames, each a 4-byte big-endian signed size preface and that many bytes; the hand-written bodies announce only the payload's length, that length +2, its negation, 0, 65536, MaxInt32 and limit+1. The generated bodies are lead{0, 1 valid frames first} x v{%d announced sizes} x tail{nothing, the 9 bytes of a valid message} where v ranges over 0, +-(2^k-1), +-2^k, +-(2^k+1) for k = 0..31 as far as an int32 holds them, MaxInt32, MinInt32 and their two inner neighbours, +-(L-1), +-L, +-(L+1) around the message size limit L = 100 MiB, and +-(n-1), +-n, +-(n+1) around the length n of the tail. The reference function is the one of every streaming body (it never looks at the family): a frame whose preface is negative, above the limit or larger than what follows makes the request stream undecodable from there, so the caller must get 200, the data frames the handler had sent and exactly one trailer frame with a non-OK code, and the server must not panic; where the bytes happen to be a valid stream (v = n with the tail, v = 0 without) the handler's normal answer. For a unary method the same bytes are a protobuf body judged like any other. ", len(prefaces), len(prefaceVs)) +
 		fmt.Sprintf("Header sets: %d hand-written ones + %d generated ones of two families. ", nCoreHdrs, len(hdrs)-nCoreHdrs) +
 		fmt.Sprintf("(1) HANDLER OUTCOMES (%d sets): a header X-Outcome, plain metadata to the library, makes the handler of whatever kind is addressed finish with an error value of a given shape instead of the status.Err() the handlers otherwise fail with: at{start = before it reads the request, end = after it has read and answered everything, where it would return nil} x trailer metadata set by the handler{no,yes} x (type{status.Err(), value with its own GRPCStatus() method, the same wrapped with %%w} x code{OK,NotFound} x message{\"boom\",empty} x details{0,1} + {value whose GRPCStatus() is nil, errors.New(\"boom\"), errors.New(\"\"), context.DeadlineExceeded, wrapped context.Canceled}); the oracle: when the handler fails, the caller gets a non-OK status (unary) resp. the reply is the data frames the handler sent followed by exactly one trailer frame whose status is not OK (streams); code, message and details must be the status's own when the error is or has a non-OK status (only the code for a wrapped one). ", len(outcomeHdrs())) +
 		fmt.Sprintf("(2) SEVERAL -bin VALUES (%d sets) over {valid base64, not base64}: every sequence of length 1..3 under one -bin key (14), two -bin keys with every sequence of length 1..2 each (36), three -bin keys with one value each (8); the oracle: 400 and no application code as soon as one value is not base64. http.Header is a map and Go randomises map iteration, so a request with more than one distinct -bin key is served %d times (a fixed number), the header map being filled in another order of its keys each time (all permutations in turn), and the first run judged wrong is the one reported; such a case still counts once in evaluations (order_dependent_cases of them). Verdicts on sequences under one key do not depend on map order. ", len(binHdrs()), orderRepeats)
 	if exhaustive {
-		rule += "Thorough tier, four disjoint blocks, each enumerated completely: A = the full product of the six request axes over the hand-written header sets, on the plain recorder with the plain delivery; B = generated header sets x cfg x registered method x every Content-Type x every body, for POST, on the plain recorder; D = every other ResponseWriter x cfg x registered method x every Content-Type x hand-written header set x every body, for POST (i.e. writer x method kind x every handler outcome the bodies produce: 0, 1, 2, 3 messages then OK, 0, 1, 2 messages then an error, undecodable request streams, and the 415/400 refusals); E = every other body delivery x cfg x registered method x every Content-Type x hand-written header set x every body, for POST, on the plain recorder (i.e. delivery x method kind x codec x every valid, undecodable, truncated and empty body); C = the remaining two-axis sweeps around the plain valid request of each method kind, for every cfg: generated header set x path, generated header set x HTTP method, writer x path (404), writer x HTTP method (405), writer x generated header set (handler outcomes of every shape, several -bin values), delivery x path, delivery x HTTP method, delivery x generated header set, delivery x writer. grammar_size is the size of A+B+C+D+E. "
+		rule += "Thorough tier, six disjoint blocks, each enumerated completely; in blocks A-E the body axis is the hand-written bodies: A = the full product of the six request axes over the hand-written header sets, on the plain recorder with the plain delivery; B = generated header sets x cfg x registered method x every Content-Type x every body, for POST, on the plain recorder; D = every other ResponseWriter x cfg x registered method x every Content-Type x hand-written header set x every body, for POST (i.e. writer x method kind x every handler outcome the bodies produce: 0, 1, 2, 3 messages then OK, 0, 1, 2 messages then an error, undecodable request streams, and the 415/400 refusals); E = every other body delivery x cfg x registered method x every Content-Type x hand-written header set x every body, for POST, on the plain recorder (i.e. delivery x method kind x codec x every valid, undecodable, truncated and empty body); C = the remaining two-axis sweeps around the plain valid request of each method kind, for every cfg: generated header set x path, generated header set x HTTP method, writer x path (404), writer x HTTP method (405), writer x generated header set (handler outcomes of every shape, several -bin values), delivery x path, delivery x HTTP method, delivery x generated header set, delivery x writer; F = generated body x cfg x registered method x every Content-Type x every body delivery, for POST without other headers on the plain recorder (i.e. announced size x position in the stream x tail x method kind x codec x delivery x configuration), except that the bodies for which the reference says the server has to buffer more than 64 KiB on the strength of the preface alone (64 KiB < v <= L) are crossed with cfg x registered method only. grammar_size is the size of A+B+C+D+E+F. "
 	} else {
-		rule += fmt.Sprintf("Quick tier: NOT the thorough tier's grammar (%d requests) but, around the plain valid request of each of the 4 method kinds, every single-axis sweep and every two-axis sweep over the eight axes, around cfg srv, and the sweeps that involve the writer axis once more around cfg mux, where the decorating-Mux placements exist (%d requests; pairwise-complete: every pair of values of any two axes, generated header sets and writers included, occurs in some request: writer x body gives writer x method kind x handler outcome {0, 1, 2, 3 messages then OK; 0, 1, 2 messages then an error; undecodable request}, writer x HTTP method / Content-Type / header set / path give the 405 / 415 / 400 / 404 paths; delivery x body and delivery x Content-Type give delivery x method kind x codec x {valid, undecodable, truncated, empty} body). ", grammarSize, enumerated)
+		rule += fmt.Sprintf("Quick tier: NOT the thorough tier's grammar (%d requests) but, around the plain valid request of each of the 4 method kinds, every single-axis sweep and every two-axis sweep over the eight axes, around cfg srv, and the sweeps that involve the writer axis once more around cfg mux, where the decorating-Mux placements exist (%d requests; pairwise-complete: every pair of values of any two axes, generated header sets and writers included, occurs in some request: writer x body gives writer x method kind x handler outcome {0, 1, 2, 3 messages then OK; 0, 1, 2 messages then an error; undecodable request}, writer x HTTP method / Content-Type / header set / path give the 405 / 415 / 400 / 404 paths; delivery x body and delivery x Content-Type give delivery x method kind x codec x {valid, undecodable, truncated, empty} body). In these sweeps the body axis is the hand-written bodies; every generated body (announced frame sizes) is tried against the plain valid request of each of the 4 method kinds and swept pairwise with cfg, Content-Type and body delivery (not with path, HTTP method, header set and ResponseWriter: the first three are refusals that never read the body, the reply to an undecodable stream behind every writer is covered by the hand-written bodies), the bodies that make the server buffer more than 64 KiB only against the plain valid request of each kind. ", grammarSize, enumerated)
 	}
 	rule += "A request is non-trivial when it addresses a registered method, i.e. reaches the gatekeeping code of handleMethod/handleStream (requests to unregistered paths only exercise the mux) and, for a case with a ResponseWriter wrapper, library code made at least one call on the wrapper; distinct by (cfg,path,method,content type,header set,body,writer,delivery). " +
 		fmt.Sprintf("Plus the JSON==protobuf comparison: message{%d} x JSON rendering{%d} x JSON content type{%d} x header set{%d} x cfg{%d} x body delivery{%d} (both requests of a pair delivered the same way), each", len(eqMsgs), len(eqRenderings), len(eqCTs), len(eqHdrs), len(cfgs), len(delivs)) +
@@ -931,29 +962,32 @@ func main() {
 	fmt.Printf("C11: %d requests (+%d JSON/protobuf pairs) in %.1fs; grammar size %d; classes: %v; notes: %v\n", evals, eq.evals, isolatedS, grammarSize, classes, notes)
 	fmt.Printf("C11: %d cases of several requests on one server (%d overlapped, each run twice; %d processes) in %.1fs; %v; %v\n", sc.cases, sc.overlappedCases, sc.childRuns, time.Since(start).Seconds()-isolatedS, sc.blocks, sc.classes)
 	os.Exit(rep.Finish("exploration", map[string]interface{}{
-		"evaluations":            evals + eq.evals + sc.cases,
-		"distinct_nontrivial":    nontrivial + eq.nontrivial + sc.nontrivial,
-		"sched_cases":            sc.cases,
-		"sched_processes":        sc.childRuns,
-		"sched_overlapped":       sc.overlappedCases,
-		"sched_nontrivial":       sc.nontrivial,
-		"sched_blocks":           sc.blocks,
-		"sched_shapes":           sc.classes,
-		"rule":                   rule,
-		"samples":                samples,
-		"exhaustive":             exhaustive,
-		"grammar_size":           grammarSize,
-		"requests":               evals,
-		"order_dependent_cases":  orderDep,
-		"order_repeats":          orderRepeats,
-		"response_writers":       len(writers),
-		"requests_by_writer":     byWriter,
-		"body_deliveries":        len(delivs),
-		"dispatched_by_delivery": byDelivery,
-		"wrapper_used_by_writer": wrapperUsed,
-		"json_pb_pairs":          eq.evals,
-		"classes":                classes,
-		"notes":                  mergeNotes(notes, eq.notes),
+		"evaluations":                            evals + eq.evals + sc.cases,
+		"distinct_nontrivial":                    nontrivial + eq.nontrivial + sc.nontrivial,
+		"sched_cases":                            sc.cases,
+		"sched_processes":                        sc.childRuns,
+		"sched_overlapped":                       sc.overlappedCases,
+		"sched_nontrivial":                       sc.nontrivial,
+		"sched_blocks":                           sc.blocks,
+		"sched_shapes":                           sc.classes,
+		"rule":                                   rule,
+		"samples":                                samples,
+		"exhaustive":                             exhaustive,
+		"grammar_size":                           grammarSize,
+		"requests":                               evals,
+		"order_dependent_cases":                  orderDep,
+		"order_repeats":                          orderRepeats,
+		"response_writers":                       len(writers),
+		"requests_by_writer":                     byWriter,
+		"body_deliveries":                        len(delivs),
+		"dispatched_by_delivery":                 byDelivery,
+		"announced_sizes":                        len(prefaceVs),
+		"generated_bodies":                       len(prefaces),
+		"dispatched_with_generated_body_by_kind": prefaceByKind,
+		"wrapper_used_by_writer":                 wrapperUsed,
+		"json_pb_pairs":                          eq.evals,
+		"classes":                                classes,
+		"notes":                                  mergeNotes(notes, eq.notes),
 	}, []string{
 		"net/http's connection handling is not exercised: requests are built literally and served on httptest.ResponseRecorder (no network), directly or behind a wrapper that forwards to it; what a connection contributes to a request, the announcement of the body's length and the way Body.Read hands the bytes out, is the body-delivery axis (12 values, three of them net/http's own parse of a literal HTTP/1.1 message)",
 		"body deliveries in which the transport itself fails are not in the grammar (a body shorter or longer than its announced Content-Length, malformed chunk framing, a connection that breaks while the body is read): there the handler gets a read error, and the statement promises nothing about a request that did not arrive; Read calls that return (0, nil) are not generated either",
@@ -969,7 +1003,8 @@ func main() {
 		"error details of a unary JSON request are accepted in either the documented encoding (base64 of a binary Any) or the request's codec (base64 of a JSON Any); the latter is counted under notes",
 		"streaming handlers quote the payload of an error-requesting message in their status message and may send data frames before failing",
 		"when the handler's trailer metadata or status message cannot be carried by HttpTrailer (an echoed value / a quoted payload that is not valid UTF-8), any non-OK trailer status is accepted besides the handler's own outcome (reporting an unencodable response as an error is C02's demand; the lost metadata is C03's); the reply must still end with exactly one trailer frame",
-		"request frames announcing up to 100 MiB are not sent with their full payload (largest announced size actually allocated by the server: 64 KiB)",
+		"request frames announcing more than the 9 bytes of one small message are not sent with their full payload: what follows a preface is nothing or 9 bytes (hand-written bodies: up to 16 bytes); the server does allocate what a preface within the limit announces (up to 100 MiB per request, one request at a time per worker), and those heavy requests are crossed with method kind (quick) resp. cfg x method kind (thorough) only",
+		"announced frame sizes are boundary values (powers of two +-1 over the whole int32 range, the type's extremes, the limit +-1, the payload length +-1), not all 2^32 values; the preface under test is the first or the second frame of the stream (RecvMsg of the unchanged server keeps no state between frames besides a counter)",
 	}))
 }
 
